@@ -4,11 +4,11 @@ CONSTANTS
   Unit = 1
   PortCap = 1
   MCFrames <- ScenFrames
-  FrameChunks = 3
-  MaxMig = 4
+  FrameChunks = 2
+  MaxMig = 3
   Serial = FALSE
-  Requesters = {1, 2}
+  Requesters = {1}
   AcceptGuard = "handling"
-  LazyCtrl = FALSE
+  LazyCtrl = TRUE
 INVARIANTS ContentsCopied NothingElseChanged CompleteOnce OneAtATime RoutedBack
 CHECK_DEADLOCK FALSE
